@@ -82,7 +82,10 @@ def main(tier):
     if tier == "quick":
         ncore = ncore[seed() % 2 :: 2]
     nested = gen_dynamic.generate_nested(seed() * 7753 + 12, 40 if tier == "quick" else 800)
-    cases = core + rand + ncore + nested
+    dcore = gen_dynamic.dynobj_core()
+    if tier == "quick":
+        dcore = dcore[seed() % 2 :: 2]
+    cases = core + rand + ncore + dcore + nested
     need = ["Setup", "ScenarioStep", "Record", "MonitorResume", "TerminationChecks", "BehaviorResume",
             "ExecuteActions", "SimulatorStep", "Tick", "UpdateObjects", "Finish"]
     rows = run_batch(ck, cases, need_actions=need)
